@@ -109,6 +109,24 @@ def mentions_err_guard(c):
     return found[0]
 
 
+class _Default(int):
+    """Default::default() of an unknown payload type"""
+    def __eq__(self, o):
+        return o is False or o == '' or o == [] or (isinstance(o, (int, float)) and not isinstance(o, bool) and o == 0) or isinstance(o, _Default)
+
+    def __ne__(self, o):
+        return not self.__eq__(o)
+
+    def __hash__(self):
+        return 0
+
+    def __repr__(self):
+        return '0'
+
+
+DEFAULT = _Default(0)
+
+
 class SkelEval(Eval):
     def __init__(self, ogp, model, options, src, include, extra_leaf=None):
         super().__init__(self._leaf, flag_types=S.load().flags, lenient=False)
@@ -180,6 +198,12 @@ class SkelEval(Eval):
             lists = [x for x in v.fields.values() if isinstance(x, list)]
             if len(lists) == 1:
                 return list(lists[0])
+            if not lists:
+                return [v]          # the payload of an Option that is iterated (`flat_map(|m| &m.binding)`): Some(x) yields x once
+        if v is None:
+            return []               # .. and None yields nothing
+        if isinstance(v, tuple) and len(v) == 2 and v[0] == 'some':
+            return [v[1]]
         raise Unbound(t or ('not iterable', repr(v)[:40]))
 
     def ev_star(self, t):
@@ -577,6 +601,11 @@ class SkelEval(Eval):
             return ('some', max(l)) if l else None
         if m == 'count':
             return len(self.iterable(r))
+        if m == 'unwrap_or_default':
+            # Default::default() of the payload type: 0 / "" / false / empty - a value that compares equal to each of them
+            if r is None:
+                return DEFAULT
+            return r[1] if isinstance(r, tuple) and len(r) == 2 and r[0] == 'some' else r
         if m == 'union':
             a, b = self.norm_flags(r), self.norm_flags(self.ev(args[0]))
             return Flags(a.ty, a.bits | b.bits)
